@@ -124,6 +124,11 @@ class Check:
             spec_fail = False
             model_fail = []
             stream_errors = []
+            # when a proof obligation broke, the streams search harder for a failing input
+            self.search_mode = not build_ok
+            for st_ in self.streams:
+                st_.search = self.search_mode
+
             def one(st):
                 try:
                     return st, self.run_stream(st, harness), None
@@ -256,7 +261,8 @@ class Check:
         hdr = "From Coq Require Import NArith ZArith List Bool.\nImport ListNotations.\n"
         hdr += "".join("Require Import %s.\n" % r for r in st.requires)
         hdr += "Open Scope N_scope.\n"
-        body = "Definition cases := [\n" + ";\n".join(st.coq_case(c, o) for c, o in zip(cases, obs)) + "\n].\n"
+        ctype = getattr(st, "case_type", None)
+        body = "Definition cases %s:= [\n" % ((": list (%s) " % ctype) if ctype else "") + ";\n".join(st.coq_case(c, o) for c, o in zip(cases, obs)) + "\n].\n"
         body += ("Fixpoint bad_idx {A} (f : A -> bool) (i : nat) (l : list A) : list nat :=\n"
                  "  match l with nil => nil | x :: r => if f x then bad_idx f (S i) r else i :: bad_idx f (S i) r end.\n")
         for nm, fn in fns:
